@@ -130,11 +130,11 @@ def build_real_history(shape, leaves_out):
     return node
 
 
-def run_auth(scripts):
+def run_auth(scripts, limits=None):
     rec = Recorder()
     PLUGIN_CALLS[0] = 0
     try:
-        v = F.run_auth_scripts(list(scripts), {}, {CID: rec}, {'signature_extensions': [counting_plugin]}, **LIMITS)
+        v = F.run_auth_scripts(list(scripts), {}, {CID: rec}, {'signature_extensions': [counting_plugin]}, **(limits or LIMITS))
     except BaseException as e:
         v = e
     return v, rec.log
@@ -311,7 +311,7 @@ def sized_leaf(i, size):
     return filler(size - len(base)) + base
 
 
-LEAF_SIZES = (127, 128, 129, 254, 255, 256, 257, 258, 259, 260, 1023, 1024, 1025, 4096)
+LEAF_SIZES = (127, 128, 129, 254, 255, 256, 257, 258, 259, 260, 1023, 1024, 1025, 4096, 8191, 8192)
 
 
 def leaf_size_case(ctx, case):
@@ -332,6 +332,15 @@ def leaf_size_case(ctx, case):
         if log != [bytes([i])] or v is not own_verdict(i):
             ctx.violation({'clause': 'a committed leaf of any size can be run', 'via': what},
                           f'{what}: leaf size {size} at {pos} of {n}, running leaf {i}: verdict {v!r} recorder {log}')
+        # the same under other item-size limits of the embedder, down to exactly the largest item of the unlocking script
+        for lim in (1024, size, size + 1):
+            if lim >= max(size, 64) and lim != LIMITS['stack_max_item_size']:
+                v, log = run_auth([unl, lock], {**LIMITS, 'stack_max_item_size': lim})
+                ctx.ran()
+                ctx.trans()
+                if log != [bytes([i])] or v is not own_verdict(i):
+                    ctx.violation({'clause': 'a committed leaf of any size can be run', 'via': what, 'limit': 'item size limit == leaf size' if lim == size else 'other item size limit'},
+                                  f'{what}: leaf size {size} at {pos} of {n}, running leaf {i} with stack_max_item_size={lim}: verdict {v!r} recorder {log}')
 
     # tree classes
     try:
